@@ -27,7 +27,9 @@ class BabelMakoExtractor(MessageExtractor):
         return self.process_file(fileobj)
 
     def process_python(self, code, code_lineno, translator_strings):
-        comment_tags = self.config["comment-tags"]
+        # a list of tags: Babel would go through a string character by
+        # character and take any comment that begins with one of them
+        comment_tags = self.config["comment-tags"].split()
         for (
             lineno,
             funcname,
